@@ -114,4 +114,6 @@ type Inflight struct {
 	Run      int             `json:"run"`
 	PlanFile string          `json:"plan_file,omitempty"`
 	Plan     json.RawMessage `json:"plan"`
+	// Recycle: not a plan in flight: the worker asks to be restarted at Run.
+	Recycle bool `json:"recycle,omitempty"`
 }
